@@ -141,16 +141,35 @@ func verifHarnessC16CloseRace() {
 	opts := verifOptions(verifDir("db"), "")
 	a, err := Open(opts)
 	verifAssert(err == nil, "C16.open-err")
+	if verifParam("prefill") == 1 {
+		verifAssert(a.Put([]byte("k"), []byte{1}) == nil, "C16.put-err")
+	}
 	var b *DB
 	var berr error
-	go func() { _ = a.Close() }()
-	go func() { b, berr = Open(opts) }()
+	var tidClose, tidOpen int
+	from := verifFSOps()
+	go func() { tidClose = verifThreadID(); _ = a.Close() }()
+	go func() { tidOpen = verifThreadID(); b, berr = Open(opts) }()
 	verifJoin()
 	if berr != nil {
 		verifAssert(berr == ErrDatabaseIsUsing, "C16.race-unexpected-error")
 		verifReach("racing-open-lost")
 	} else {
 		verifReach("racing-open-won")
+		// once the racing Open owns the directory lock, the closing handle is no longer an open database of
+		// that directory: it must not touch the directory any more
+		lockAt := -1
+		for i := from; i < verifFSOps(); i++ {
+			if lockAt < 0 && verifFSOpThread(i) == tidOpen && strings.HasPrefix(verifFSOpKind(i), "lock ") {
+				lockAt = i
+				continue
+			}
+			if lockAt >= 0 && verifFSOpThread(i) == tidClose {
+				verifNote("closing-handle-op-after-new-owner-locked", verifFSOpKind(i))
+				verifAssert(false, "C16.two-open-databases-during-close")
+			}
+		}
+		verifAssert(lockAt >= 0, "C16.winner-never-locked")
 		c, err := Open(opts)
 		verifAssert(err == ErrDatabaseIsUsing && c == nil, "C16.two-open-handles-after-close-race")
 		verifAssert(b.Close() == nil, "C16.race-close-err")
